@@ -650,6 +650,82 @@ def basicMinExponents (numSteps : Nat) (offset : Int) : List Int := (List.range 
     return u
 
 
+# atoms of guard conditions: source text of a sub-expression -> (lean term, type); the free variables are the
+# parameters of the generated predicate
+GUARD_SITES = [
+    # (file, class or None, function, index of the _assert in that function, name, [(param, type)], {source atom: (lean, type)})
+    ('core.py', 'Derivative', '_raise_error_if_any_is_complex', 0, 'guard_real_x', [('xComplex', 'bool')],
+     {'np.any(np.iscomplex(x))': ('xComplex', 'bool')}),
+    ('core.py', 'Derivative', '_raise_error_if_any_is_complex', 1, 'guard_real_fx', [('fComplex', 'bool')],
+     {'np.any(np.iscomplex(f_x))': ('fComplex', 'bool')}),
+    ('core.py', None, 'directionaldiff', 0, 'guard_directionaldiff', [('x0Size', 'nat'), ('vecSize', 'nat')],
+     {'x0.size': ('x0Size', 'nat'), 'vec.size': ('vecSize', 'nat')}),
+    ('finite_difference.py', 'LogRule', '_vstack', 0, 'guard_vstack', [('fdelSize', 'nat'), ('hSize', 'nat')],
+     {'f_del.size': ('fdelSize', 'nat'), 'h.size': ('hSize', 'nat')}),
+    ('finite_difference.py', 'LogJacobianRule', '_vstack', 0, 'guard_vstack_jacobian', [('fdelSize', 'nat'), ('hSize', 'nat')],
+     {'f_del.size': ('fdelSize', 'nat'), 'h.size': ('hSize', 'nat')}),
+    ('limits.py', '_Limit', '_vstack', 0, 'guard_vstack_limit', [('fdelSize', 'nat'), ('hSize', 'nat')],
+     {'f_del.size': ('fdelSize', 'nat'), 'h.size': ('hSize', 'nat')}),
+    ('finite_difference.py', 'LogRule', '_apply', 0, 'guard_apply', [('n_r', 'nat'), ('num_steps', 'nat')], {}),
+    ('fornberg.py', None, 'fd_weights_all', 0, 'guard_fd_weights_all', [('n', 'nat'), ('m', 'nat')], {}),
+    ('fornberg.py', None, 'fd_derivative', 0, 'guard_fd_derivative_order', [('n', 'nat'), ('num_x', 'nat')], {}),
+    ('fornberg.py', None, 'fd_derivative', 1, 'guard_fd_derivative_len', [('num_x', 'nat'), ('lenFx', 'nat')],
+     {'len(fx)': ('lenFx', 'nat')}),
+    ('fornberg.py', None, '_num_taylor_coefficients', 0, 'guard_num_taylor', [('n', 'nat')], {}),
+    ('limits.py', 'Residue', '__init__', 0, 'guard_residue', [('pole_order', 'nat'), ('order', 'nat')], {}),
+    ('limits.py', 'CStepGenerator', '_check_path', 0, 'guard_path', [('pathIsSpiral', 'bool'), ('pathIsRadial', 'bool')],
+     {"self.path in ['spiral', 'radial']": ('(pathIsSpiral || pathIsRadial)', 'bool')}),
+    ('extrapolation.py', 'Dea', 'limexp', 0, 'guard_limexp', [('n', 'nat')], {}),
+]
+
+
+class GuardTr(Tr):
+    def __init__(self, env, atoms):
+        Tr.__init__(self, env, {}, lambda n: None)
+        self.atoms = atoms
+
+    def e(self, n):
+        src = ast.unparse(n)
+        if src in self.atoms:
+            return self.atoms[src]
+        return Tr.e(self, n)
+
+
+def gen_guards(status, baseline):
+    u = Unit('Guards.lean', '''/- GENERATED by translator/py2lean.py: every `_assert(cond, msg)` that guards the public API, as a predicate
+   (true = the call proceeds, false = ValueError) — do not edit -/
+import Ndt.Gen.Prelude
+namespace Ndt.Gen
+''')
+    mods = {}
+    for (fname, cname, func, idx, name, params, atoms) in GUARD_SITES:
+        key = 'guard.' + name
+        try:
+            if fname not in mods:
+                mods[fname] = parse(fname)
+            scope = mods[fname].body if cname is None else find_class(mods[fname], cname).body
+            cands = [f for f in scope if isinstance(f, ast.FunctionDef) and f.name == func]
+            if not cands:
+                raise Unsupported('function %s not found' % func)
+            # property setters share the name: take the one that contains an _assert
+            asserts = []
+            for f in cands:
+                asserts += [c for c in ast.walk(f) if isinstance(c, ast.Call) and getattr(c.func, 'id', '') == '_assert']
+            if len(asserts) <= idx:
+                raise Unsupported('_assert #%d not found in %s' % (idx, func))
+            tr = GuardTr({p: (p, t) for p, t in params}, atoms)
+            cond = tr.coerce(*tr.e(asserts[idx].args[0]), 'bool')
+            sig = ' '.join('(%s : %s)' % (p, LT[t]) for p, t in params)
+            u.add(key, '/-- %s: `%s` -/\ndef %s %s : Bool := %s' % (
+                (cname + '.' if cname else '') + func, ast.unparse(asserts[idx].args[0]), name, sig, cond))
+            status[key] = {'ok': True}
+        except (Unsupported, KeyError) as ex:
+            status[key] = {'ok': False, 'error': str(ex)}
+            if key in baseline:
+                u.add(key, baseline[key]['text'])
+    return u
+
+
 PRELUDE = '''/- GENERATED by translator/py2lean.py — do not edit -/
 namespace Ndt.Gen
 /-- the closed universe of method names (anything else is `other`) -/
@@ -682,7 +758,7 @@ def main(update_baseline=False):
     baseline = json.load(open(bpath)) if os.path.exists(bpath) else {}
     status = {}
     units = []
-    for gen in (gen_logrule, gen_steps):
+    for gen in (gen_logrule, gen_steps, gen_guards):
         try:
             units.append(gen(status, baseline))
         except Exception as ex:     # whole-unit failure (class missing, syntax error ...)
